@@ -43,8 +43,8 @@ CHECKS.update({
         level='model_checking', design='5/C06',
         technique='TLC on AdbHost (intended vs as-built deviation constants; safety, deadlock, liveness under WF); transition tour replay into real threads and asyncio tasks; random real-code schedules validated against TraceEnv with the K1 history signature',
         text='Exhaustive exploration of 2-3 concurrent operations at critical-section granularity on the design; every edge of the as-built 2-thread graph replayed on the real code with state comparison; '
-             'independent schedule exploration of the real code judged by the Layer-A monitor. K1 is a known finding (KNOWN_FINDINGS.txt).',
-        note='Preemption only at lock/transport boundaries; line-level preemption inside critical sections not explored. Trusted: ' + TB + '; the scheduler runs one thread at a time.'),
+             'independent schedule exploration of the real code (uniform / sticky / PCT-style schedules; extra preemption points at writes, local I/O and every line of the store and read(); faults and short writes; generators interleaved in one thread, across reconnects, two device objects, GC inside reads) judged by the Layer-A monitor. K1 was found by this check and fixed (KNOWN_FINDINGS.txt).',
+        note='The exhaustive part is at critical-section granularity (design + tour); finer preemption is explored by sampling, not exhaustively. Trusted: ' + TB + '; the scheduler runs one thread at a time.'),
 })
 
 CHECKS.update({
@@ -69,13 +69,13 @@ CHECKS.update({
         text='Design: no stuck state and the FAIL is delivered for every ordering; code: every rejected transfer ends in the documented exception carrying the reason, never a success, never a timeout. F5 was found by this check and fixed (KNOWN_FINDINGS.txt).',
         note='Status ids restricted to FILESYNC_IDS; reorderings restricted to what adbd can produce. Trusted: ' + TB),
     'C13': dict(level='model_checking', design='5/C13',
-        technique='life-cycle spec AdbApi explored by TLC; its labelled graph walked on fresh sync+async device objects for every letter sequence (full alphabet to length 3/4, operation classes to 4/6)',
-        text='Outcome class, bytes written to the transport, .available and local files compared with the model edge after every step of every sequence.',
+        technique='life-cycle spec AdbApi (availability, one-call operations, the streaming generator, failing close, connect attempts ended by any exception) explored by TLC; its labelled graph walked on fresh sync+async device objects for every letter sequence (full alphabet to length 3/4, operation classes to 4/6), the set of possible model states carried along',
+        text='Outcome class, whether the transport was asked to write, .available (also sampled at every transport call of a connect attempt) and local files compared with the model edges after every step of every sequence; model-edge coverage reported.',
         note='Trusted: ' + TB),
     'C14': dict(level='model_checking', design='5/C14',
         technique='AdbAlloc (one action per source line of the id allocation block) explored by TLC with lock / sanity mutation without; model paths replayed with sys.settrace line-level preemption; exhaustive line-level DFS of the real block judged by the C14 clauses of TraceEnv',
         text='IdRange and UniqueLive for 2-3 concurrent opens and counters at 0, M-3..M-1; every model path replayed on real threads; all line-level interleavings of two real _open calls (and random ones of three) near 0 and 2^32 judged on the OPEN packets on the wire.',
-        note='Line-level, not bytecode-level preemption. Trusted: ' + TB + '; sys.settrace.'),
+        note='Line-level interleavings exhaustively (2 threads); bytecode-level with one preemption at every instruction of _open. Trusted: ' + TB + '; sys.settrace.'),
 })
 
 CHECKS.update({
